@@ -61,27 +61,27 @@ prop("C06", "exploration",
           "distinct = new plan digest reaching a new observation hash")
 prop("C07", "exploration",
      quick=[("crates", "fast", 2500), ("mixed", "fast", 400), ("cross", "fast", 500),
-            ("crates_disk_faulty", "fast", 500)],
+            ("crates_disk_faulty", "fast", 500), ("crates2_disk", "fast", 500)],
      thorough=[("crates", "fast", 120000), ("mixed", "fast", 30000), ("crates", "san", 4000), ("cross", "fast", 30000),
-               ("crates_disk_faulty", "fast", 20000)],
+               ("crates_disk_faulty", "fast", 20000), ("crates2_disk", "fast", 20000)],
      relevant=["op:create_sub", "op:set_parent", "op:remove_crate", "op:set_name", "op:create_root"],
      rule="seeded crate-operation histories (create root/sub[_after], rename, re-parent incl. cycles, remove) on small forests; "
           "every query is compared with a forest model after each step; non-trivial = at least one crate operation executed; "
           "distinct = new plan digest reaching a new observation hash")
 prop("C08", "exploration",
      quick=[("members", "fast", 2200), ("mixed", "fast", 400), ("cross", "fast", 500),
-            ("members_disk_faulty", "fast", 600)],
+            ("members_disk_faulty", "fast", 600), ("members2_disk", "fast", 400)],
      thorough=[("members", "fast", 100000), ("mixed", "fast", 30000), ("members", "san", 4000), ("cross", "fast", 30000),
-               ("members_disk_faulty", "fast", 20000)],
+               ("members_disk_faulty", "fast", 20000), ("members2_disk", "fast", 20000)],
      relevant=["op:add_track", "op:remove_from", "op:clear"],
      rule="seeded membership histories with an id-skew prologue so that track, crate and membership-row ids diverge; "
           "crate.tracks()/containing_crates() compared with a relation model after each step; non-trivial = at least one "
           "membership operation executed; distinct = new plan digest reaching a new observation hash")
 prop("C09", "exploration",
      quick=[("crates2", "fast", 2200), ("members2", "fast", 600), ("table", "fast", 1200), ("cross", "fast", 500),
-            ("members2_disk_faulty", "fast", 600), ("table_disk_faulty", "fast", 400)],
+            ("members2_disk_faulty", "fast", 600), ("table_disk_faulty", "fast", 400), ("crates2_disk", "fast", 400)],
      thorough=[("crates2", "fast", 100000), ("members2", "fast", 40000), ("crates2", "san", 3000), ("table", "fast", 60000), ("cross", "fast", 30000),
-               ("members2_disk_faulty", "fast", 20000), ("table_disk_faulty", "fast", 15000), ("cross_disk_faulty", "fast", 15000)],
+               ("members2_disk_faulty", "fast", 20000), ("table_disk_faulty", "fast", 15000), ("cross_disk_faulty", "fast", 15000), ("crates2_disk", "fast", 20000)],
      relevant=["op:create_sub_after", "op:create_root_after", "op:set_parent", "op:remove_crate", "op:add_track", "op:p_add", "op:p_update",
                "op:e_add", "op:e_remove"],
      rule="2.x-only histories of positioned/un-positioned creates, moves, renames, removals and entity add/remove/clear; "
